@@ -8,9 +8,9 @@ git diff -- plasTeX > /tmp/seed_$ID.diff
 [ -s /tmp/seed_$ID.diff ] || { echo "no diff"; exit 2; }
 DEMO=$(ls demo_*.py | head -1)
 echo "== demo WITH change"; timeout 600 /venv/bin/python $DEMO > /tmp/seed_$ID.with.log 2>&1; W=$?; tail -3 /tmp/seed_$ID.with.log; echo "exit=$W"
-git stash -q
+git apply -R /tmp/seed_$ID.diff     # (git stash is shared by all worktrees of a repository: never use it here)
 echo "== demo WITHOUT change"; timeout 600 /venv/bin/python $DEMO > /tmp/seed_$ID.without.log 2>&1; WO=$?; tail -2 /tmp/seed_$ID.without.log; echo "exit=$WO"
-git stash pop -q
+git apply /tmp/seed_$ID.diff
 echo "== pytest WITH change"; timeout 1800 /venv/bin/python -m pytest -q -p no:cacheprovider --timeout=900 -n 8 --basetemp=/tmp/bt_$ID > /tmp/seed_$ID.pytest.log 2>&1; tail -1 /tmp/seed_$ID.pytest.log
 /venv/bin/python -c "import plasTeX; print(plasTeX.__file__)"
 rm -rf /tmp/bt_$ID
